@@ -12,6 +12,17 @@ macro_rules! int_val {
     ($($t:ty),*) => { $( impl ToVal for $t { fn to_val(&self) -> Json { Json::String(self.to_string()) } } )* };
 }
 int_val!(u8, u16, u32, u64, u128, i8, i16, i32, i64, i128);
+/// floats are compared by bit pattern
+impl ToVal for f32 {
+    fn to_val(&self) -> Json {
+        json!({"fbits": self.to_bits().to_string()})
+    }
+}
+impl ToVal for f64 {
+    fn to_val(&self) -> Json {
+        json!({"fbits": self.to_bits().to_string()})
+    }
+}
 impl ToVal for bool {
     fn to_val(&self) -> Json {
         Json::Bool(*self)
@@ -77,6 +88,8 @@ shape!(QI { a: u8, b: i8, c: u64, d: i64, e: u16, f: i32 });
 shape!(QO { a: Option<u32>, b: Option<String>, c: Option<bool>, d: u8 });
 shape!(QV { v: Vec<u32>, s: Vec<String>, #[serde(default)] d: Vec<i16> });
 shape!(QO0 { a: Option<u32> });
+shape!(PF32 { x: f32 });
+shape!(PF64 { x: f64 });
 shape!(QS<'a> { #[serde(borrow)] a: Cow<'a, str>, b: &'a str });
 
 /// Runs `$body` with `$T` bound to the struct named by `$name`.
@@ -96,6 +109,8 @@ macro_rules! with_shape {
             "QO" => { type $T<'a> = $crate::shapes::QO; $body }
             "QV" => { type $T<'a> = $crate::shapes::QV; $body }
             "QS" => { type $T<'a> = $crate::shapes::QS<'a>; $body }
+            "PF32" => { type $T<'a> = $crate::shapes::PF32; $body }
+            "PF64" => { type $T<'a> = $crate::shapes::PF64; $body }
             _ => $other,
         }
     };
